@@ -371,6 +371,10 @@ class Gen:
         if kind == 'trace':
             tans = [[r.choice(self.tasks), r.choice(self.algs)]
                     for _ in range(r.randint(1, 2))]
+            bumped = [k for k in self.ver if k[0] == 'a']
+            if bumped and r.random() < 0.7:   # an algorithm with several versions
+                _, t_, a_ = r.choice(bumped)
+                tans[0] = [t_, a_]
             return {'op': 'trace', 'tans': tans}
         return {'op': 'reset', 'run': run, 'tn': tn, 'task': task, 'alg': alg}
 
@@ -448,6 +452,9 @@ def directed():
         upd(1, 'T', 't', 'a', 's', 'v1', 5, aver=(1, 1, 0)),
         upd(1, 'TT', 't', 'a', 's', 'v', 6, aver=(1, 1, 0)),
         upd(2, 'T', 't1', 'a', 's', 'v', 7, aver=(1, 1, 0)),
+        upd(5, 'T', 't', 'a', 's', 'v', 8, aver=(11, 0, 0)),
+        upd(3, 'T', 't', 'a', 's', 'v', 9, aver=(1, 10, 0)),
+        {'op': 'trace', 'tans': [['t', 'a']]},
         load(1, 'T', 't', 'a', 's', 'v', aver=(1, 1, 0)),
         load(1, 'T', 't', 'a', 's', 'v', aver=(1, 10, 0)),
         load(9, 'T', 't', 'a', 's', 'v', aver=(11, 0, 0)),
@@ -671,6 +678,8 @@ def trace_oracle(orc, hop, ob, idx):
         if tn.startswith('__') and tn.endswith('__'):
             continue
         for task, alg in hop['tans']:
+            if task not in idx[1]:
+                continue
             tid = idx[1].index(task)
             vers = [v for p, n, v, _ in algs if p == tid and n == alg]
             if not vers:
@@ -806,11 +815,15 @@ def study(ctx, focus, escalate=False):
     key = (ctx.tier, ctx.seed, escalate, focus)
     if key in _CACHE:
         return _CACHE[key]
-    deep = (not ctx.quick) or escalate
+    deep = not ctx.quick
     q_r, q_s, t_r, t_s = SIZES[focus]
     n_random = t_r if deep else q_r
     n_sweep = t_s if deep else q_s
-    length = 26 if deep else 20
+    if escalate and not deep:
+        # a fingerprint of a modelled function changed, or something broke
+        # without a failing input: three times the quick depth
+        n_random, n_sweep = 3 * q_r, 3 * q_s
+    length = 26 if (deep or escalate) else 20
     hs = histories(ctx, n_random, n_sweep, length, focus)
     hist_list = [h for _, h in hs]
     import threading
@@ -865,7 +878,14 @@ def study(ctx, focus, escalate=False):
         if tab_m != tab_i and res['mismatch'] is None:
             res['mismatch'] = {'history': hi, 'kind': kind, 'step': 'final-tables',
                                'impl': repr(tab_i), 'model': repr(tab_m), 'ops': h}
-        orc = run_oracles(h, im)
+        try:
+            orc = run_oracles(h, im)
+        except Exception as e:   # observations too inconsistent to evaluate
+            import traceback
+            if res.get('oracle_crash') is None:
+                res['oracle_crash'] = {'history': hi, 'ops': h,
+                                       'error': traceback.format_exc()[-1500:]}
+            orc = Oracle()
         for prop, knd, fields, what in orc.hits:
             res['hits'].append({'property': prop, 'kind': knd, 'fields': fields,
                                 'what': what, 'history': hi, 'ops': h})
@@ -1173,6 +1193,11 @@ def run_check(ctx, pid, with_units=False):
                        json.dumps(unit_bad),
                        {'source': 'correspondence', 'unit': unit_bad['unit'],
                         'expected': unit_bad['model'], 'observed': unit_bad['impl']})
+        if res.get('oracle_crash'):
+            oc = res['oracle_crash']
+            ctx.broken('oracle: the observations of a history are too inconsistent '
+                       'to evaluate the property', oc['error'],
+                       {'source': 'oracle', 'ops': oc['ops']})
         if not res['msv_ok']:
             ctx.broken('harness: MetricStateVector layout differs from the model table',
                        'see Model/StoreIO.v MSV_VALS', {'source': 'correspondence'})
